@@ -241,6 +241,13 @@ theorem call_g (A : Nat → Nat → Nat → Prop) (hA : ∀ j t x y, y ≤ x →
     simp only [applyOp] at h
     cases h
     exact G.mk' (G.start hmok')
+  | onEntriesFetched to term aggr =>
+    rcases CV.onEntriesFetched_ok h with h | ⟨-, hld, -, raft, hx, h⟩
+    · cases h; exact G.start hmok'
+    · cases h
+      rcases hx with hx | hx
+      · exact (G.start hmok').sf hA (sendAppendAggressively_sf hnb' hx SF.rfl) (.inl hld)
+      · exact (G.start hmok').sf hA (sendAppend_sf hnb' hx SF.rfl) (.inl hld)
 
 end CC
 end Raft
